@@ -82,7 +82,7 @@ def main(argv=None):
 
     if args.replay:
         data, case = core.read_replay(args.replay)
-        outcome = check.run_case(case)
+        outcome = core.guarded_run(check, case)
         bad = 0
         for fail in outcome.failures:
             entry = core.match_known(check, known, case, fail)
@@ -104,7 +104,7 @@ def main(argv=None):
     # tier 0: committed regression corpus (known findings, fixed defects, seeded escapes)
     for path in ([] if os.environ.get('VERIF_NO_CORPUS') else core.corpus_files(prop_id)):
         _data, case = core.read_replay(path)
-        outcome = check.run_case(case)
+        outcome = core.guarded_run(check, case)
         tally.add(case, outcome, 'corpus')
 
     explored, per_shard, extras = core.explore(check, args.tier, seed)
@@ -131,7 +131,8 @@ def main(argv=None):
         shrunk = False
         detail = buck['detail']
         case_enc = buck['case']
-        if buck['origin'] == 'generated' and buck.get('shard') is not None:
+        if (buck['origin'] == 'generated' and buck.get('shard') is not None
+                and not sig.endswith('/no_termination')):
             found = core.shrink_bucket(check, args.tier, seed * 1000 + buck['shard'],
                                        per_shard[buck['shard']], sig,
                                        seconds=int(check.BUDGET[args.tier].get('shrink_s', 45)))
